@@ -14,6 +14,45 @@ add("C17", "ENUM",
     "Trusted: the bitmask model (Go integer ops). Assumes interval ends are representable in T and NewMap gets non-empty intervals only.",
     "DESIGN.md §3 C17")
 
+
+T_ENUM = "bounded-exhaustive enumeration of the declared input space on the real code against an independent reference model"
+T_HIST = "explicit-state search over operation histories: fresh real object, replay, one more operation, full observable surface compared with a reference model"
+add("C09", "ENUM", T_ENUM + " (big-integer IR evaluator)",
+    "ConstFold executed on every expression tree of the declared bounded spaces (all trees with <=2 internal nodes over small leaf/width alphabets, 3 in thorough, all width-gadget chains <=3 in every consumer context, wide widths, constant-only trees) and compared with the original under 9 valuations by an evaluator written from the IR documentation; width, single-constant, no-foldable-operation and idempotence oracles on each. Complete within those bounds; larger trees / other valuations are not explored.",
+    "Trusted: harness/ir evaluator (independent of expreval/ConstFold). Semantic equality is decided on 9 valuations only.", "DESIGN.md §3 C09")
+add("C10", "ENUM", T_ENUM + " (math/big arithmetic)",
+    "ConstFold of each operator and Less on constants: all 65536 operand pairs at width 1, all byte-pattern operands for operand/operation widths 1..3, boundary alphabets and every shift amount at widths up to 255, against math/big following the documented width rules. Exhaustive at width 1; boundary-valued above.",
+    "Trusted: math/big. Above width 1 operands are boundary alphabets.", "DESIGN.md §3 C10")
+add("C11", "ENUM", T_ENUM + " (documented gadget functions in math/big)",
+    "Every exported exprtools gadget evaluated both through the real ConstFold (constants) and through the independent evaluator (register operands) for all 65536 operand pairs at width 1 and boundary alphabets at widths 2..16 (SignedMul to 127), compared with big-integer definitions of the documented functions within the documented preconditions.",
+    "Trusted: the oracle definitions transcribed from the doc comments; preconditions (operand width = w for signed ops, sign bit < 8w, mask count <= 8w, condition not wider than w).", "DESIGN.md §3 C11")
+add("C12", "ENUM", T_ENUM,
+    "SetWidth to widths 1..4 (more on wide trees) and PurgeWidthGadgets on every tree of the C09 spaces; result width, value (original adjusted to the new width) under 9 valuations, and the (key, address width, load width) list of memory loads compared.",
+    "Trusted: harness/ir evaluator; 9 valuations with pseudo-random memory so a changed address changes the data.", "DESIGN.md §3 C12")
+add("C13", "ENUM", T_ENUM,
+    "Possibilities on every tree of the bounded spaces (conditionals nested in operands, branches, conditions, addresses): each alternative has the expression's width and no Less, and under each valuation some alternative has the expression's value.",
+    "Coverage of outcomes is judged on 9 valuations.", "DESIGN.md §3 C13")
+add("C14", "HIST", T_HIST + " (byte map); no state merging",
+    "All histories of <=3 stores (4 over a reduced alphabet in thorough) of constant/symbolic/narrower/wider values at overlapping addresses on a fresh real Sparse memory; after each history every Load, Missing and Blocks over the address window is compared with a byte map under 3 valuations, at the bottom and the top of the address space; values handed in/returned are digest-checked for later alteration.",
+    "Histories are not merged (private interval-tree fragmentation is part of the state). Write widths 1..4 plus a few hand-picked wide writes.", "DESIGN.md §3 C14")
+add("C15", "HIST", T_HIST + " (byte map)",
+    "Bytes memory: creation from every ordered list of <=3 blocks (overlapping, adjacent, unsorted) and every history of <=2 (thorough 3) constant stores on 65 initial layouts; full read surface vs byte map; aliasing of given slices/constants and returned expressions checked.",
+    "Initial blocks non-empty; constants only (documented precondition).", "DESIGN.md §3 C15")
+add("C16", "HIST", T_HIST + " (layered byte map)",
+    "Overlay over each of 64 Bytes layouts and 4 fragmented Sparse bases: every history of <=2 (thorough 3) stores; every Load/Missing/Blocks compared with the layered byte map; the base's own surface compared with its initial model afterwards.",
+    "No address wrap; values judged under 3 valuations.", "DESIGN.md §3 C16")
+add("C18", "HIST", T_HIST,
+    "Every history of <=2 (thorough 3) register writes (two APIs, 6 value shapes, 3 widths) and memory writes with constant/foldable/non-constant addresses on a fresh real State; after each operation all register reads at 5 widths and the memory surface are compared with the model; refused writes must not change the snapshot.",
+    "Values judged under 5 valuations.", "DESIGN.md §3 C18")
+add("C19", "ENUM", T_ENUM + " (pairwise conflict predicate, brute-force matching)",
+    "Every ordered set of <=2 patterns (and 3 from a reduced list) over a two-bit-lane byte alphabet incl. malformed ones: NewMatcher succeeds iff all well formed and pairwise non-overlapping; on success Match on every string of length 0..3 returns the unique matching pattern.",
+    "Byte alphabet {00,01,10,11}; pattern length <=2.", "DESIGN.md §3 C19")
+add("C27", "ENUM", T_ENUM,
+    "NewConstUint/NewConstInt/ConstFrom* on all 8- and 16-bit values x widths 1..4 and boundary 32/64-bit values x widths 1..9 (panic iff out of range, exact little-endian encoding); ConstUint[T] read-back; NewConst copy semantics and WithWidth.",
+    "32/64-bit values are boundary alphabets.", "DESIGN.md §3 C27")
+add("C28", "ENUM", T_ENUM + " (own recursive walkers)",
+    "Equal on all ordered pairs of ~12k trees vs equality of an independent canonical rendering; FindAll for 5 node kinds vs own pre-order walk; ReplaceAll for 5 kinds x 5 replacement functions vs own bottom-up model; Exprs/ExprsMany/EffectApply on both effect kinds.",
+    "Trees with <=2 internal nodes plus deep self-nested ones.", "DESIGN.md §3 C28")
 PENDING = {}
 def main():
     checks = []
